@@ -146,6 +146,7 @@ type pod struct {
 	PodResources *podresapi.PodResources        // pod resources acquired from podresourceapi
 	podResCh     <-chan *podresapi.PodResources // channel for pod resource fetch
 	waitResCh    chan struct{}                  // channel for waiting for pod resource fetch
+	fetchedRes   *podresapi.PodResources        // result of pod resource fetch, valid once waitResCh is closed
 	prettyName   string                         // cached PrettyName()
 	ctime        time.Time                      // time of pod creation
 
